@@ -660,6 +660,11 @@ def emit_block(blk, rel, out_lines, meta):
             for name in arg.split():
                 text, log = apply_rewrite(name, text)
                 record["rewrites"].append(log)
+        if d == "rename":
+            old_n, new_n = arg.split()
+            cnt = len(re.findall(r"\b" + re.escape(old_n) + r"\b", text))
+            text = re.sub(r"\b" + re.escape(old_n) + r"\b", new_n, text)
+            record["rewrites"].append({"rewrite": "rename", "why": "two nested functions of the same name end up in one file: the item and its self-calls get a qualifying name", "sites": [{"from": old_n, "to": new_n, "count": cnt}]})
     # body dropped: the fn keeps its signature and contract, the body is not part of this unit
     for d, arg, payload, tl in blk.subs:
         if d == "assume_body":
@@ -694,7 +699,7 @@ def emit_block(blk, rel, out_lines, meta):
         return "\n".join(p[0] for p in payload)
 
     for order, (d, arg, payload, tl) in enumerate(blk.subs):
-        if d in ("rewrite", "lift", "vis", "assume_body"):
+        if d in ("rewrite", "lift", "vis", "assume_body", "rename"):
             continue
         if r.kind == "closure" and d not in ("before", "after", "loop", "at_end", "closure", "after_closure"):
             if d == "sig":
